@@ -6,6 +6,7 @@ import Noodles.Cram.Nx16
 import Noodles.Cram.DriverC08Tok
 import Noodles.Cram.DriverC08Order1
 import Noodles.Cram.DriverC08Aac
+import Noodles.Cram.DriverC08Fqz
 /-! Line-protocol handler for the CRAM integer codings and rANS 4x8 order 0 (`c08 …`). -/
 namespace Noodles.Cram.DriverC08
 open Noodles.Wire Noodles.Cram.Num Noodles.Cram
@@ -76,6 +77,6 @@ def handle : List String → String
       | .error .order1 => "unsupported-order-1"
       | .error .nested => "unsupported-nested"
     | _, _ => "bad-op"
-  | ws => ((DriverC08Tok.handle? ws) <|> (DriverC08Order1.handle? ws) <|> (DriverC08Aac.handle? ws)).getD "bad-op"
+  | ws => ((DriverC08Tok.handle? ws) <|> (DriverC08Order1.handle? ws) <|> (DriverC08Aac.handle? ws) <|> (DriverC08Fqz.handle? ws)).getD "bad-op"
 
 end Noodles.Cram.DriverC08
